@@ -389,6 +389,7 @@ func (e *Engine) rvElems(v RValue) (*Loc, int, int, types.Type) {
 // tick returns a fresh symbolic instant not earlier than the previous one.
 func (e *Engine) tick() T {
 	t := e.nondet("clock", 64)
+	e.nondets[len(e.nondets)-1].Internal = true
 	// stay far from overflow: 0 <= t < 2^62, non-decreasing
 	e.s.assert(binop("<", t, bv(1<<62, 64), false))
 	e.s.assert(binop(">=", t, e.clock, false))
@@ -490,6 +491,9 @@ func (e *Engine) harnessIntrinsic(name string, args []Value, guard T, site *ssa.
 			if e.s.check() == "sat" {
 				w := Witness{Harness: e.harness, Label: lbl(0), Clean: len(e.res.Violations) == 0}
 				for _, n := range e.nondets {
+					if n.Internal {
+						continue
+					}
 					v, _ := e.s.value(n.Name)
 					w.Values = append(w.Values, v)
 				}
@@ -602,7 +606,10 @@ func (e *Engine) check(label string, c T) {
 		e.res.Inconclusive = append(e.res.Inconclusive, "check "+label+": model extraction gave "+rr)
 	}
 	e.s.in.WriteString("(pop)\n")
-	// continue the path assuming the check held
+	// continue the path assuming the check held (a concretely false check just continues)
+	if c.isFalse() {
+		return
+	}
 	e.s.assert(c)
 	if e.s.check() == "unsat" {
 		panic(pathAbort{"after failed check"})
@@ -616,6 +623,9 @@ func (e *Engine) recordViolation(label, kind, detail string) {
 	}
 	v := Violation{Harness: e.harness, Label: label, Kind: kind, Detail: detail, Prefix: append([]int64{}, e.taken...)}
 	for _, n := range e.nondets {
+		if n.Internal {
+			continue
+		}
 		val, _ := e.s.value(n.Name)
 		v.Nondets = append(v.Nondets, n)
 		v.Values = append(v.Values, val)
